@@ -249,7 +249,7 @@ func (o *vfValueOracle) onValue(kid vfKeyId, k *vfKeyState, r *vfReq, ev *vfEven
 	}
 	obs, err := vfParseValue(ev.Data)
 	if vfValueDebug {
-		fmt.Printf("VALUE %s: observed %s model %s known=%v applied=%v op=%s\n", ev.String(), obs.String(), st.Val.String(), st.Known, applied, vfJSON(r.Op.Data))
+		fmt.Printf("NOTE: VALUE %s: observed %s model %s known=%v applied=%v op=%s\n", ev.String(), obs.String(), st.Val.String(), st.Known, applied, vfJSON(r.Op.Data))
 	}
 	if err != nil {
 		s.report("C15", "malformed-value", "", "reply carries a malformed value frame (%v): %x; %s", err, ev.Data, ev.String())
@@ -322,7 +322,7 @@ func (o *vfValueOracle) onAckAdmit(kid vfKeyId, r *vfReq) {
 	}
 	st := o.state(kid)
 	if vfValueDebug {
-		fmt.Printf("VALUE ack-admit req=%d model %s known=%v op=%s\n", r.ID, st.Val.String(), st.Known, vfJSON(r.Op.Data))
+		fmt.Printf("NOTE: VALUE ack-admit req=%d model %s known=%v op=%s\n", r.ID, st.Val.String(), st.Known, vfJSON(r.Op.Data))
 	}
 	o.pending[r.ID] = &vfAckPendingVal{prev: st.Val, prevKnown: st.Known, prevSig: st.LastSig}
 	if st.Known {
@@ -346,7 +346,7 @@ func (o *vfValueOracle) onAckRollback(kid vfKeyId, r *vfReq) {
 	delete(o.pending, r.ID)
 	st := o.state(kid)
 	if vfValueDebug {
-		fmt.Printf("VALUE ack-rollback req=%d model %s known=%v prev %s prevKnown=%v opsSince=%d\n", r.ID, st.Val.String(), st.Known, p.prev.String(), p.prevKnown, p.opsSince)
+		fmt.Printf("NOTE: VALUE ack-rollback req=%d model %s known=%v prev %s prevKnown=%v opsSince=%d\n", r.ID, st.Val.String(), st.Known, p.prev.String(), p.prevKnown, p.opsSince)
 	}
 	if p.prevKnown && p.opsSince == 0 {
 		st.Val, st.Known = p.prev, true
